@@ -886,6 +886,12 @@ func ParseSpecFile(path, pkg string, isGo, trusted bool) (*SpecFile, error) {
 				return nil, fail(i, "call clause needs 'callee#n: assert expr'")
 			}
 			body := strings.TrimSpace(parts[1])
+			ghostKind := "ghost"
+			if strings.HasPrefix(body, "ghost_after ") {
+				// like ghost, but applied in the state right after the call, with result0.. bound to its results
+				ghostKind = "ghost_after"
+				body = "ghost " + strings.TrimPrefix(body, "ghost_after ")
+			}
 			if strings.HasPrefix(body, "ghost ") {
 				ga := strings.SplitN(strings.TrimPrefix(body, "ghost "), ":=", 2)
 				if len(ga) != 2 {
@@ -900,7 +906,7 @@ func ParseSpecFile(path, pkg string, isGo, trusted bool) (*SpecFile, error) {
 					return nil, fail(i, "%v", err)
 				}
 				k := strings.TrimSpace(parts[0])
-				cur.Asserts[k] = append(cur.Asserts[k], &Clause{Kind: "ghost", LHS: lhs, E: rhs, Text: body})
+				cur.Asserts[k] = append(cur.Asserts[k], &Clause{Kind: ghostKind, LHS: lhs, E: rhs, Text: body})
 				continue
 			}
 			if strings.HasPrefix(body, "assume_after ") {
